@@ -159,8 +159,9 @@ theorem none_target_aux (s : TH) (L : Lang) (hH : Helpers s L) :
         | some sub =>
           rw [hf] at h; simp only at h
           rw [hv, hH.sub_none sub (List.mem_of_find?_eq_some hf)] at h
-          simp only at h
-          cases h; rfl
+          -- the operand is untyped: the `None` check of the logging argument `result_target_asset.name` raises
+          simp only [pyNotNone] at h
+          cases h
     split at h
     · cases hl : lg_process_step_expression fuel s none dc x.lhs with
       | error e => rw [hl] at h; cases h
